@@ -1,6 +1,7 @@
 """kernel jparse: the REAL basic_json_parser<char> driven like basic_json_reader::read().  Serves C03 (K3.1), C02 (K2.1), C10, C05."""
 ASSUMPTIONS = ['jparse/*: allow_comments off unless stated; max_nesting_depth = 3; input length concrete per job']
-STUB_NOTES = ['strtod: by contract - consumes the validated literal, returns an injective finite function of the text (<= 6 chars)', 'recording visitor instead of json_decoder', 'driver loop mirrors basic_json_reader::read_next/check_done over up to 3 chunks']
+STUB_NOTES = ['std::string::_M_replace: C model by contract (engine/vmodels.h) - source must not alias the string (asserted); all other std::string code is the real libstdc++ code lowered from IR (-D_GLIBCXX_ASSERTIONS disables the extern templates)', 'strtod: by contract - consumes the validated literal, returns an injective finite function of the text (<= 6 chars)', 'recording visitor instead of json_decoder', 'driver loop mirrors basic_json_reader::read_next/check_done over up to 3 chunks']
+STUBS = ['_ZNSt7__cxx1112basic_stringIcSt11char_traitsIcESaIcEE10_M_replaceEmmPKcm', '_ZNSt7__cxx1112basic_stringIcSt11char_traitsIcESaIcEE9_M_mutateEmmPKcm']
 def jobs(tier):
     J = []
     for l in (1, 2, 3):
